@@ -24,6 +24,7 @@ RULE += ("  " + 'Also (round 7): socket_timeout configured and downloads larger 
 RULE += ("  " + 'Also (round 8): operating-system messages in another language with a line break in them, also on a latin-1 server.')
 RULE += ("  " + "Also (round 9): the real executor-based back end WITHOUT the spy around it, path_timeout configured - the k-th job it gives to its executor is slower than path_timeout or fails inside the thread (every k); what the back end's own decorators let through is what the server gets.")
 RULE += ("  " + 'Also (round 10): a transfer command right behind REST that fails before its mark keeps its prepared data connection and is given again at once (no other command in between): the whole file (retry_after_rest).')
+RULE += ("  " + 'Also (round 11): 80 failing transfers in one session with good ones in between and at the end (repeat); the probe after every fault also lists /dir (probe_listing); a download to a peer that has stopped reading, socket_timeout set, the storage failing while unsent data sits in the buffers (retr_stalled).')
 ASSUMPTIONS = [
     "faults are raised inside aioftp's own universal_exception wrapper by a spying subclass of the shipped back end",
     "a data connection must be closed by the server only when the transfer was started (1xx mark sent)",
@@ -65,7 +66,7 @@ async def execute(net, hyg, plan):
     await w.start()
     loop = asyncio.get_running_loop()
     try:
-        script = corpus("")[plan["script"]]
+        script = plan["inline"] if plan.get("inline") else corpus("")[plan["script"]]
         s = Session(net, 2121, name="victim")
         by = None
         by_task = None
@@ -481,7 +482,7 @@ def run_case(case):
     sites = {}
     fired = 0
     if case["kind"] == "enum_k":
-        for k in range(1, N + 1, case.get("stride", 1)):
+        for k in range(1, min(N, case.get("max_k", N)) + 1, case.get("stride", 1)):
             plan = dict(base, k=k)
             res = run_plan(plan)
             if not merge(res, plan, f"k={k}"):
@@ -527,6 +528,11 @@ def gen_cases(tier, seed):
     # a server whose encoding cannot carry the operating system's message
     for name in ("mkd_rmd", "retr_pasv", "stor_pasv", "mlsd"):
         cases.append({"kind": "enum_k", "plan": {"script": name, "exc": "oddtext", "seed": seed, "server_kwargs": {"encoding": "latin-1"}}})
+    # a download to a peer that has stopped reading (socket_timeout configured): the storage fails while unsent data sits in the
+    # server's buffers
+    stalled = [["connect"], ["login"], ["pasv"], ["xfer_stall", "RETR", "/huge.bin", 20000, 3.5], ["cmd", "PWD"], ["quit"]]
+    cases.append({"kind": "enum_k", "stride": 2 if tier == "quick" else 1, "max_k": 14,
+                  "plan": {"script": "retr_stalled", "inline": stalled, "exc": "eio", "seed": seed, "server_kwargs": {"socket_timeout": 3}}})
     # the same failure 80 times in one session
     for backend in ("memory", "pathio") if tier == "quick" else ("memory", "pathio", "async"):
         for verbs in (["STOR"], ["STOR", "APPE", "RETR"]):
